@@ -44,6 +44,10 @@ type Scenario struct {
 	HandlerWrites  map[string]string `json:"handler_writes"` // update index -> body to write from inside the handler
 	Steps          [][]any           `json:"steps"`
 	NoServe        bool              `json:"no_serve"`
+	OnOpenDelayMs  int               `json:"on_open_delay_ms"`
+	EstDelayMs     int               `json:"est_delay_ms"`
+	HandlerDelayMs int               `json:"handler_delay_ms"`
+	CapsDelayMs    int               `json:"caps_delay_ms"`
 }
 
 type Msg struct {
@@ -139,6 +143,9 @@ func notifOf(a []any) *bgp.Notification {
 func (p *plugin) GetCapabilities(bgp.PeerConfig) []bgp.Capability {
 	p.log("GetCapabilities", "enter", "")
 	defer p.log("GetCapabilities", "exit", "")
+	if p.sc.CapsDelayMs > 0 {
+		time.Sleep(time.Duration(p.sc.CapsDelayMs) * time.Millisecond)
+	}
 	return capsOf(p.sc)
 }
 
@@ -150,12 +157,18 @@ func (p *plugin) OnOpenMessage(_ bgp.PeerConfig, id netip.Addr, caps []bgp.Capab
 	}
 	p.log("OnOpenMessage", "enter", sb.String())
 	defer p.log("OnOpenMessage", "exit", "")
+	if p.sc.OnOpenDelayMs > 0 {
+		time.Sleep(time.Duration(p.sc.OnOpenDelayMs) * time.Millisecond)
+	}
 	return notifOf(p.sc.OnOpen)
 }
 
 func (p *plugin) OnEstablished(_ bgp.PeerConfig, w bgp.UpdateMessageWriter) bgp.UpdateMessageHandler {
 	p.log("OnEstablished", "enter", "")
 	p.nUpdate.Store(0)
+	if p.sc.EstDelayMs > 0 {
+		time.Sleep(time.Duration(p.sc.EstDelayMs) * time.Millisecond)
+	}
 	p.run.mu.Lock()
 	p.run.writer = w
 	p.run.writers = append(p.run.writers, w)
@@ -175,6 +188,9 @@ func (p *plugin) OnEstablished(_ bgp.PeerConfig, w bgp.UpdateMessageWriter) bgp.
 		p.run.mu.Unlock()
 		p.log("Handler", "enter", hex.EncodeToString(u))
 		defer p.log("Handler", "exit", "")
+		if p.sc.HandlerDelayMs > 0 {
+			time.Sleep(time.Duration(p.sc.HandlerDelayMs) * time.Millisecond)
+		}
 		if body, ok := p.sc.HandlerWrites[fmt.Sprint(i)]; ok {
 			b, _ := hex.DecodeString(body)
 			p.run.recordWrite("handler", w.WriteUpdate(b), 0)
@@ -444,6 +460,9 @@ func (r *runner) step(st []any) error {
 			if err != nil {
 				e = err.Error()
 			}
+			if name != "add" {
+				r.plug.log("API-RETURN", name, "")
+			}
 		case <-time.After(time.Duration(to) * time.Millisecond):
 			e = "TIMEOUT"
 		}
@@ -468,6 +487,7 @@ func (r *runner) step(st []any) error {
 			if err != nil {
 				e = err.Error()
 			}
+			r.plug.log("API-RETURN", name, "")
 			r.mu.Lock()
 			r.res.API = append(r.res.API, APICall{Name: name, Err: e, Ms: time.Since(t0).Milliseconds(), At: at})
 			r.mu.Unlock()
@@ -686,6 +706,7 @@ func runScenario(sc *Scenario) *Result {
 	go func() { srv.Close(); close(closed) }()
 	select {
 	case <-closed:
+		r.plug.log("API-RETURN", "final-close", "")
 		res.API = append(res.API, APICall{Name: "final-close", Ms: time.Since(t0).Milliseconds(), At: r.ms()})
 	case <-time.After(8 * time.Second):
 		res.API = append(res.API, APICall{Name: "final-close", Err: "TIMEOUT", Ms: time.Since(t0).Milliseconds(), At: r.ms()})
